@@ -77,7 +77,7 @@ def role_of(op) -> str | None:
         return "dm"
     if isinstance(op, linalg.GenericOp):
         return "compute"
-    if op.name in ("dart.operation", "dart.schedule", "snax_stream.streaming_region"):
+    if op.name in ("dart.operation", "dart.schedule", "dart.access_pattern", "snax_stream.streaming_region"):
         acc = op.properties.get("accelerator")
         if acc is not None and acc.data == "snax_xdma":
             first = op.regions[0].block.first_op
@@ -106,7 +106,7 @@ class BufferMachine(Machine):
     EXTRA = TABLE
 
     def by_name(self, op):
-        if op.name == "dart.operation":
+        if op.name in ("dart.operation", "dart.schedule", "dart.access_pattern"):
             return (True, _stream)
         return None
 
